@@ -119,7 +119,11 @@ fn par_exec(m: &mut Machine, sh: &Shared, id: u64, op: &str, toks: &[&str]) -> S
         Err(_) => "panic".to_string(),
         Ok(Some(Ok(v))) => {
             let mut s = String::from("ok ");
+            NONCANON.with(|f| f.set(false));
             show(&v, &mut s);
+            if NONCANON.with(|f| f.get()) {
+                s.insert_str(3, "NC:");
+            }
             s
         }
         Ok(Some(Err(e))) => format!("bad:{}", e.replace(' ', "_")),
